@@ -7,7 +7,7 @@ import ast
 from typing import Dict, List, Optional, Set, Tuple
 
 from ..model import AnchorError, Program, dotted, last_attr, norm, parent, walk_no_nested
-from ..report import Check
+from ..report import Check, guard
 from .common import calls_in, guards_of, local_assignments, params_of, returns_of
 
 EXP, ACT = "EXPECTED", "ACTUAL"
@@ -455,8 +455,8 @@ def r07_f(prog: Program, chk: Check) -> None:
 
 
 def run(prog: Program, chk: Check) -> None:
-    r07_e(prog, chk)
-    r07_a(prog, chk)
-    r07_b(prog, chk)
-    r07_c(prog, chk)
-    r07_f(prog, chk)
+    guard(chk, r07_e, prog, chk)
+    guard(chk, r07_a, prog, chk)
+    guard(chk, r07_b, prog, chk)
+    guard(chk, r07_c, prog, chk)
+    guard(chk, r07_f, prog, chk)
